@@ -311,7 +311,7 @@ directive(void)
 {
 	struct location newloc;
 	enum ppflags oldflags;
-	char *name = NULL;
+	char *name = NULL, *end;
 
 	scan(&tok);
 	if (tok.kind == TNEWLINE)
@@ -343,7 +343,9 @@ directive(void)
 		scan(&tok);
 		tokencheck(&tok, TNUMBER, "after #line");
 line:
-		newloc.line = strtoull(tok.lit, NULL, 0);
+		newloc.line = strtoull(tok.lit, &end, 10);
+		if (*end)
+			error(&tok.loc, "line number '%s' is not a digit sequence", tok.lit);
 		newloc.col = 1;
 		scan(&tok);
 		newloc.file = tok.loc.file;
